@@ -173,18 +173,31 @@ def bin_case(draw, tier):
         shrink = 0.98 * min((mid - lo) / (mid - need_lo) if need_lo < mid else 1.0,
                             (hi - mid) / (need_hi - mid) if need_hi > mid else 1.0)
         centres = mid + (centres - mid) * min(shrink, 1.0)
-    ctype = draw(st.sampled_from(["float", "float", "int_array", "int_list", "float_list"]))
-    if ctype.startswith("int"):
+    ctype = draw(st.sampled_from(["float", "float", "int_array", "int_list", "float_list", "int_narrow"]))
+    force_unit = None
+    if ctype == "int_narrow":
+        # integer-valued centres in angstrom held in the narrowest integer type that fits them; the band is moved
+        # into the near infrared (1.5 - 5 um: 15000 .. 50000 angstrom, around the int16 / uint16 limits)
+        shift_nm = float(draw(st.integers(1200, 3200)))
+        w = w + shift_nm
+        centres = centres + shift_nm
+        ci = np.unique(np.round(centres * 10.0).astype(int))
+        if len(ci) >= 2 and method != "simps":
+            centres = ci / 10.0
+            force_unit = "angstrom"
+        else:
+            ctype = "float"
+    elif ctype.startswith("int"):
         ci = np.unique(np.round(centres).astype(int))
         if len(ci) >= 2 and (method != "simps" or len(set(np.diff(ci).tolist())) == 1):
             centres = ci.astype(float)
         else:
             ctype = "float"
-    force_nm = ctype.startswith("int")           # integer centres are only meaningful in the spectrum's own nm grid
+    force_nm = ctype.startswith("int") and force_unit is None     # integer centres are only meaningful in the spectrum's own grid
     if force_nm and draw(st.booleans()):
         shape = "linear"
     return {"w_nm": w, "grid": grid, "shape": shape, "lin": [a, b], "seed": k, "centres_nm": centres, "cgrid": cgrid,
-            "ctype": ctype, "force_nm": force_nm,
+            "ctype": ctype, "force_nm": force_nm, "force_unit": force_unit,
             "reused": draw(st.sampled_from([None, None, "set_value", "inplace", "set_wave_value", "resample"])),
             "method": method, "ends": draw(st.sampled_from(["symmetric", "inside"])),
             "preserve": draw(st.booleans()), "unit": draw(st.sampled_from(UNITS)),
@@ -204,14 +217,18 @@ def bin_(case, ctx):
         v = rng.uniform(0, 2, size=len(w_nm))
     else:
         v = rng.uniform(-2, 2, size=len(w_nm))
-    unit = "nm" if case.get("force_nm") else case["unit"]
+    unit = case.get("force_unit") or ("nm" if case.get("force_nm") else case["unit"])
     f = rs.factor("nm", unit)
     s = Spectrum(w_nm * f, v.copy(), waveunit=unit)
-    bunit = unit if (case["bin_unit"] == "same" or case.get("force_nm")) else case["other_unit"]
+    bunit = unit if (case["bin_unit"] == "same" or case.get("force_nm") or case.get("force_unit")) else case["other_unit"]
     fb = rs.factor("nm", bunit)
     centres = case["centres_nm"] * fb
     ctype = case.get("ctype", "float")
-    if ctype.startswith("int") and bunit == "nm":
+    if ctype == "int_narrow":
+        ci = np.round(centres).astype(np.int64)
+        centres = ci.astype("int16" if ci.max() <= 32767 else "uint16" if ci.max() <= 65535 else "int32")
+        ctx.tag("centre_dtype:" + str(centres.dtype), "adjacent_sum_beyond_type" if int(ci[-1]) + int(ci[-2]) > np.iinfo(centres.dtype).max else None)
+    elif ctype.startswith("int") and bunit == "nm":
         centres = centres.astype(int)            # integer-typed bin centres (array or plain list)
     carg = centres.tolist() if ctype.endswith("list") else centres
     if _simps_int(case):
@@ -219,7 +236,7 @@ def bin_(case, ctx):
     m, ends, pres = case["method"], case["ends"], case["preserve"]
     ctx.tag("method:" + m, "ends:" + ends, "preserve" if pres else "raw", "shape:" + case["shape"],
             "unit:" + unit, "bin_unit:" + ("same" if bunit == unit else "other"), "centres:" + case["cgrid"],
-            "grid:" + case["grid"], "centre_type:" + (ctype if bunit == "nm" or not ctype.startswith("int") else "float"))
+            "grid:" + case["grid"], "centre_type:" + (ctype if bunit == "nm" or not ctype.startswith("int") or ctype == "int_narrow" else "float"))
     dmin = float(np.min(np.diff(case["centres_nm"])))
     ctx.nontrivial_if(dmin < float(np.max(np.diff(w_nm))) or bunit != unit)
     reused = case.get("reused")
